@@ -179,9 +179,9 @@ func (s *SP) UnmarshalJSON(data []byte) error   { return s.unmarshal(data) }
 // must compare the whole value all the same (T = SE, Marshal* on the value, Unmarshal* on the pointer).
 type SE struct{ ID, MBeh int }
 
-func (s SE) Equal(o SE) bool              { return s.ID == o.ID }
-func (s SE) Compare(o SE) int             { return s.ID - o.ID }
-func (s SE) String() string               { return fmt.Sprintf("SE#%d", s.ID) }
+func (s SE) Equal(o SE) bool                { return s.ID == o.ID }
+func (s SE) Compare(o SE) int               { return s.ID - o.ID }
+func (s SE) String() string                 { return fmt.Sprintf("SE#%d", s.ID) }
 func (s SE) MarshalText() ([]byte, error)   { return c20Marshal(s.ID, s.MBeh) }
 func (s SE) MarshalBinary() ([]byte, error) { return c20Marshal(s.ID, s.MBeh) }
 func (s SE) MarshalJSON() ([]byte, error)   { return c20Marshal(s.ID, s.MBeh) }
